@@ -403,6 +403,22 @@ func (f *Frame) resolveLocal(l *Loop, name string, st *State, phi map[*ssa.Phi]V
 		wantAddr = true
 		name = strings.TrimPrefix(name, "addr_")
 	}
+	if wantAddr {
+		// the allocation of the addressable local itself (its DebugRefs may all be value uses)
+		var alloc *ssa.Alloc
+		for _, b := range f.fn.Blocks {
+			for _, in := range b.Instrs {
+				if a, ok := in.(*ssa.Alloc); ok && a.Comment == name && f.availableAt(a, l) {
+					if alloc == nil || f.later(a, alloc) {
+						alloc = a
+					}
+				}
+			}
+		}
+		if alloc != nil {
+			return f.evalUnder(alloc, l, phi), true
+		}
+	}
 	refs := f.nameIndex()[name]
 	var best *nameRef
 	for i := range refs {
